@@ -170,6 +170,92 @@ def dataIter (a : ANode) (script : List DAAns) : ANode × List SW × List Submit
         let (a', ws, calls, all) := submitLoop true maxSubmitAttempts a items script [] []
         (a', ws, calls, if all then .done else .incomplete)
 
+/-! ### the write that persists the watermark fails (`store.SetMetadata` returns an error)
+
+`setLastSubmittedHeight` stores the new value in memory first and only logs a failed `SetMetadata`: the in-memory
+watermark stays raised, the durable copy lags until the next successful write (or a restart, which reloads the durable
+copy).  `nf` = how many of the next metadata writes fail (the harness arms `hx.LogDS.FailPut = nf` right before the tick;
+a raise that does not move the watermark writes nothing and consumes no fault).  With `nf = 0` these are the functions
+above (`Submit.submitLoopF_zero`, `headersIterF_zero`, `dataIterF_zero` in `Proofs/SubmitFault.lean`). -/
+
+/-- `pendingBase.setLastSubmittedHeight` with a failing persist (`fail`): memory is raised, nothing is written -/
+def raiseWmF (fail : Bool) (a : ANode) (isData : Bool) (h : Nat) : ANode × List SW :=
+  if fail then
+    let cur := if isData then a.n.dataWm else a.n.hdrWm
+    if h > cur then
+      ({ a with n := if isData then { a.n with dataWm := h } else { a.n with hdrWm := h } }, [])
+    else (a, [])
+  else raiseWm a isData h
+
+/-- does raising to `h` issue a metadata write at all -/
+def raises (a : ANode) (isData : Bool) (h : Nat) : Bool := decide (h > (if isData then a.n.dataWm else a.n.hdrWm))
+
+/-- `submitLoop` when the next `nf` watermark writes fail; also returns the faults left -/
+def submitLoopF (isData : Bool) : Nat → Nat → ANode → List Item → List DAAns → List SW → List SubmitCall →
+    (ANode × List SW × List SubmitCall × Bool) × Nat
+  | 0, nf, a, rem, _, ws, calls => ((a, ws, calls, rem.isEmpty), nf)
+  | fuel+1, nf, a, rem, script, ws, calls =>
+    if rem.isEmpty then ((a, ws, calls, true), nf) else
+    let ans := script.headD (.ok none)
+    let script' := script.tail
+    let cnt (k : Option Nat) : Nat := match k with | none => rem.length | some k => min k rem.length
+    let hs := rem.map (·.height)
+    match ans with
+    | .ok k =>
+      let c := cnt k
+      if c = 0 then
+        submitLoopF isData fuel nf a rem script' ws (calls ++ [⟨isData, hs, ans, a.daH, 0⟩])
+      else
+        let sub := rem.take c
+        let a1 : ANode :=
+          if isData then { a with dMarks := sub.foldl (fun m it => (it.key, a.daH) :: m) a.dMarks }
+          else { a with hMarks := sub.foldl (fun m it => (it.key, a.daH) :: m) a.hMarks }
+        let lastH := (sub.getLast?.map (·.height)).getD 0
+        let fail := raises a1 isData lastH && decide (nf > 0)
+        let (a2, w) := raiseWmF fail a1 isData lastH
+        let a3 := { a2 with daH := a.daH + 1, daBlobs := (sub.map fun it => (a.daH, isData, it.height)).reverse ++ a2.daBlobs,
+                            daBytes := (sub.map fun it => (a.daH, isData, it.height, it.blob)).reverse ++ a2.daBytes }
+        submitLoopF isData fuel (if fail then nf - 1 else nf) a3 (rem.drop c) script' (ws ++ w)
+          (calls ++ [⟨isData, hs, ans, a.daH, c⟩])
+    | .lost k =>
+      let c := cnt k
+      let sub := rem.take c
+      let a3 := if c = 0 then a else
+        { a with daH := a.daH + 1, daBlobs := (sub.map fun it => (a.daH, isData, it.height)).reverse ++ a.daBlobs,
+                 daBytes := (sub.map fun it => (a.daH, isData, it.height, it.blob)).reverse ++ a.daBytes }
+      submitLoopF isData fuel nf a3 rem script' ws (calls ++ [⟨isData, hs, ans, a.daH, c⟩])
+    | .canceled => ((a, ws, calls ++ [⟨isData, hs, ans, a.daH, 0⟩], false), nf)
+    | _ => submitLoopF isData fuel nf a rem script' ws (calls ++ [⟨isData, hs, ans, a.daH, 0⟩])
+
+/-- one tick of `HeaderSubmissionLoop`, the next `nf` watermark writes failing -/
+def headersIterF (nf : Nat) (a : ANode) (script : List DAAns) : (ANode × List SW × List SubmitCall × IterOut) × Nat :=
+  if a.n.store.height = a.n.hdrWm then ((a, [], [], .skipped), nf)
+  else if a.n.hdrWm > a.n.store.height then ((a, [], [], .fetchErr), nf)
+  else match pendingBlocks a.n.store a.n.hdrWm with
+    | none => ((a, [], [], .fetchErr), nf)
+    | some bs =>
+      let items := bs.map fun b => ({ height := b.sh.hdr.height, key := b.sh.hdr.hash, blob := hdrBlob b } : Item)
+      let r := submitLoopF false maxSubmitAttempts nf a items script [] []
+      ((r.1.1, r.1.2.1, r.1.2.2.1, if r.1.2.2.2 then .done else .incomplete), r.2)
+
+/-- one tick of `DataSubmissionLoop`, the next `nf` watermark writes failing -/
+def dataIterF (nf : Nat) (a : ANode) (script : List DAAns) : (ANode × List SW × List SubmitCall × IterOut) × Nat :=
+  if a.n.store.height = a.n.dataWm then ((a, [], [], .skipped), nf)
+  else if a.n.dataWm > a.n.store.height then ((a, [], [], .fetchErr), nf)
+  else match pendingBlocks a.n.store a.n.dataWm with
+    | none => ((a, [], [], .fetchErr), nf)
+    | some bs =>
+      let items := (bs.filter fun b => !b.data.txs.isEmpty).map fun b =>
+        ({ height := (b.data.metadata.map (·.height)).getD 0, key := b.data.daCommitment, blob := dataBlob b } : Item)
+      if items.isEmpty then
+        let h := (bs.getLast?.map fun b => (b.data.metadata.map (·.height)).getD 0).getD 0
+        let fail := raises a true h && decide (nf > 0)
+        let r := raiseWmF fail a true h
+        ((r.1, r.2, [], .skipped), if fail then nf - 1 else nf)
+      else
+        let r := submitLoopF true maxSubmitAttempts nf a items script [] []
+        ((r.1.1, r.1.2.1, r.1.2.2.1, if r.1.2.2.2 then .done else .incomplete), r.2)
+
 /-! ### a block committed while a submission body runs
 
 `DataSubmissionLoop` / `HeaderSubmissionLoop` and `AggregationLoop` are different goroutines.  A submission body reads its
